@@ -629,7 +629,7 @@ func runProperty() int {
 			MaxDepth:  optInt(h, *tier, "depth", 400),
 			AllocCap:  optInt(h, *tier, "alloc", 4096),
 			Preempt:   optInt(h, *tier, "preempt", -1),
-			TimeBoxS:  optInt(h, *tier, "timebox", map[string]int{"quick": 0, "thorough": 480}[*tier]),
+			TimeBoxS:  optInt(h, *tier, "timebox", map[string]int{"quick": 0, "thorough": 240}[*tier]),
 			Workers:   *workers,
 			Thorough:  *tier == "thorough",
 			KeepLog:   true,
